@@ -259,8 +259,118 @@ def component_step(ck, ctx):
     ck.ob("component-step", "separator-class-consistent", not bad, "every byte dispatch in canonicalize_path treats '/' and '\\' alike (inconsistent switches: %s)" % bad, span=b.loc, fn=CANON)
 
 
+# the canonicaliser's per-component decision table: (byte class at src, at src+1, at src+2, stack pop) -> what one loop iteration does.
+# `=span` stands for "dst advanced by the copied span, src set to its end".
+CANON_TABLE = {
+    ("none", "-", "-", "-"): ("exit", (), (), 0, 0),
+    ("sep", "-", "-", "-"): ("iter", ("+1",), (), 0, 0),
+    ("dot", "none", "-", "-"): ("exit", (), (), 0, 0),
+    ("dot", "sep", "-", "-"): ("iter", ("+2",), (), 0, 0),
+    ("dot", "dot", "none", "some"): ("iter", ("+3",), ("=ofs",), 0, 0),
+    ("dot", "dot", "sep", "some"): ("iter", ("+3",), ("=ofs",), 0, 0),
+    ("dot", "dot", "none", "none"): ("iter", ("+3",), ("+1", "+1"), 0, 0),
+    ("dot", "dot", "sep", "none"): ("iter", ("+3",), ("+1", "+1", "+1"), 0, 0),
+    ("dot", "dot", "dot", "-"): ("iter", ("=span",), ("=span",), 1, 1),
+    ("dot", "dot", "other", "-"): ("iter", ("=span",), ("=span",), 1, 1),
+    ("dot", "other", "-", "-"): ("iter", ("=span",), ("=span",), 1, 1),
+    ("other", "-", "-", "-"): ("iter", ("=span",), ("=span",), 1, 1),
+}
+
+
+def dispatch_table(ck, ctx):
+    """What one iteration of canonicalize_path's loop does, for every combination of the byte classes it looks at (the byte at src,
+    src+1, src+2: absent / separator / '.' / anything else, several representatives each) and of the component stack being empty or
+    not: computed by path-sensitive propagation from the loop header with the `data.get(..)` results enumerated, compared with the
+    specification table (separators and `./` are skipped; `..` pops a component or, with nothing to pop, is kept; a trailing `.` is
+    trimmed; anything else is one pushed-and-copied component)."""
+    from n2sa.flagint import FlagInt, OPTION
+    import collections
+    F = ctx.F
+    b = ck.need("fn " + CANON, F.body(CANON))
+    cfg = ctx.cfg(b)
+    R = ctx.res(b)
+    hdrs = cfg.loop_headers()
+    if len(hdrs) != 1:
+        ck.ob("dispatch-table", "loop", False, "canonicalize_path has %d loops (need the one component loop)" % len(hdrs), span=b.loc, fn=CANON)
+        return
+    hdr = hdrs[0]
+    loop = cfg.natural_loop(hdr)
+    gets = {}
+    for bb, t in b.calls():
+        if callee_of(t) == "core::slice::get" and bb in loop:
+            e = strip(R.arg(bb, 1))
+            gets[bb] = e[3][1] if e[0] == "bin" and e[1] == "Add" and e[3][0] == "const" else 0
+    names = {nm: l for l, nm in b.names.items()}
+    src, dst = names.get("src"), names.get("dst")
+    ck.ob("anchor", "canonicalize_path src/dst cursors", src is not None and dst is not None, "the read and write cursors exist", nontrivial=False)
+    if src is None or dst is None:
+        return
+    eff = {}
+    for bi in loop:
+        for si, s_ in enumerate(b.blocks[bi]["stmts"]):
+            if s_["k"] == "assign" and not s_["place"]["p"] and s_["place"]["l"] in (src, dst):
+                e = R.stmt_rvalue(bi, s_)
+                nm = "src" if s_["place"]["l"] == src else "dst"
+                if e[0] == "bin" and e[1] == "Add" and e[3][0] == "const":
+                    eff.setdefault(bi, []).append((nm, "+%d" % e[3][1]))
+                elif e[0] == "field" and any(c[1] == "canon::StackStack::pop" for c in calls_in(e)):
+                    eff.setdefault(bi, []).append((nm, "=ofs"))
+                elif any(c[1].endswith("position") for c in calls_in(e)):
+                    eff.setdefault(bi, []).append((nm, "=span"))
+                else:
+                    eff.setdefault(bi, []).append((nm, "=?" + show(e, 4)[:40]))
+    REPS = [("sep", 47), ("sep", 92), ("dot", 46), ("other", 97), ("other", 0), ("other", 255), ("other", 58), ("other", 45), ("other", 32)]
+
+    def hook(fi, bi, t, callee, args, vals, ghost):
+        if bi in gets:
+            k = "c%d" % gets[bi]
+            if k in ghost:
+                cls, byte = ghost[k]
+                return [(("en", OPTION, "None", ()), ghost)] if cls == "none" else [(("en", OPTION, "Some", (("cref", ("i", byte)),)), ghost)]
+            out = [(("en", OPTION, "None", ()), dict(ghost, **{k: ("none", -1)}))]
+            for cls, byte in REPS:
+                out.append((("en", OPTION, "Some", (("cref", ("i", byte)),)), dict(ghost, **{k: (cls, byte)})))
+            return out
+        if callee == "canon::StackStack::pop":
+            return [(("en", OPTION, "None", ()), dict(ghost, pop="none")), (("en", OPTION, "Some", None), dict(ghost, pop="some"))]
+        if callee == "canon::StackStack::push":
+            return [(None, dict(ghost, push=ghost.get("push", 0) + 1))]
+        if callee.endswith("copy_within"):
+            return [(None, dict(ghost, copy=ghost.get("copy", 0) + 1))]
+        return None
+
+    def onb(fi, bi, ghost):
+        if bi == hdr:
+            fi.observe("iter", bi, None, ghost)
+            return False
+        if bi not in loop:
+            fi.observe("exit", bi, None, ghost)
+            return False
+        if bi in eff:
+            g = dict(ghost)
+            for nm, e in eff[bi]:
+                g[nm] = g.get(nm, ()) + (e,)
+            return g
+        return None
+
+    fi = FlagInt(F, b, hook, on_block=onb).run(start_bb=hdr)
+    tab = collections.defaultdict(set)
+    for tag, bb, _, g in fi.obs:
+        g = dict(g)
+        key = tuple((g.get("c%d" % k) or ("-",))[0] for k in range(3)) + (g.get("pop", "-"),)
+        tab[key].add((tag, g.get("src", ()), g.get("dst", ()), g.get("push", 0), g.get("copy", 0)))
+    ck.extra["canon_dispatch_table"] = {" ".join(k): [list(map(str, x)) for x in sorted(v)] for k, v in sorted(tab.items())}
+    ck.extra.setdefault("flagint", {})["canonicalize_path"] = dict(states_explored=fi.visited, rows=len(tab))
+    for key in sorted(set(CANON_TABLE) | set(tab)):
+        got = sorted(tab.get(key, []))
+        want = CANON_TABLE.get(key)
+        ok = want is not None and got == [want] and not fi.capped
+        ck.ob("dispatch-table", "|".join(key), ok, "bytes at src.. = %s, stack %s: one iteration does %s (specified: %s)" % (key[:3], key[3], got or "nothing reachable", want or "no such case"), span=b.loc, fn=CANON)
+
+
 def run(ck, ctx):
     component_step(ck, ctx)
+    dispatch_table(ck, ctx)
     sinks(ck, ctx)
     single_map(ck, ctx)
     wrapper(ck, ctx)
